@@ -1157,6 +1157,13 @@ func (f *Frame) compositeLitAs(st *State, e *ast.CompositeLit, t types.Type) *Te
 		return App(si.Ctor, si.Sort, vals...)
 	case *types.Slice:
 		if isBytes(u) {
+			// a one-element literal []byte{b} (the record type byte of a snapshot stream) is a function of b
+			if len(e.Elts) == 1 {
+				if _, isKV := e.Elts[0].(*ast.KeyValueExpr); !isKV {
+					fn := c.declareFun("bytes1", []Sort{SInt}, SByt)
+					return App(fn, SByt, f.expr(st, e.Elts[0]))
+				}
+			}
 			c.note("[]byte literal uninterpreted")
 			return c.fresh("byteslit", SByt)
 		}
